@@ -146,6 +146,22 @@ CHECKS = {
         'finding.',
         'the probe is an ordinary registered function; contracts are written '
         'from the docstrings', 'DESIGN.md section 2, C11'),
+    'C12': (
+        'metamorphic: every registered definition (isolated clone) x typed '
+        'argument tuples x all call spellings must agree',
+        'Generated-input search over the live library: for each of the ~286 '
+        'definitions and several fillings from the typed corpus, up to ~20 '
+        'spellings (positional; every positional|keyword split point in '
+        'source and reversed order; defaulted parameters omitted / skipped '
+        'with empty slots / given explicitly; call(name, args, kwargs); '
+        'function and method form of extension methods) are evaluated on a '
+        'clone registered under a fresh name and must give equal finalised '
+        'results or the same exception class; under the real names the kind '
+        'rule (method-only / function-only) and the documented keyword names '
+        'are checked. Enumerated over definitions, sampled over fillings.',
+        'clone isolation removes overload competition (that is C05/C06); '
+        'keyword names come from the harness\'s own snake->camel converter '
+        'and the docstrings', 'DESIGN.md section 2, C12'),
     'C15': (
         'exhaustive all-pairs enumeration of a boundary corpus under every '
         'scalar operator against a reference model, law checks through yaql, '
